@@ -441,7 +441,10 @@ def check_region(ctx, case):
             for which, sidx, uu in ((0, 0, 0.0), (1, nsec - 1, 1.0)):
                 if e["ext"][which] < 0 and (H.sections[sidx].kind != "seg" or H.w[i][sidx][0] != "c"):
                     E = H.centre(i, sidx, np.array([uu]))[0]
-                    excl.append((float(E[0]), float(E[1]), -e["ext"][which] + pieces[0 if which == 0 else -1][2] * 1.5 + 2 * band))
+                    # the cut is joined to the previous sampled edge point, up to a quarter of the section away
+                    cs = allC[sidx]
+                    seclen = float(np.hypot(*(cs[1:] - cs[:-1]).T).sum())
+                    excl.append((float(E[0]), float(E[1]), -e["ext"][which] + 0.3 * seclen + pieces[0 if which == 0 else -1][2] * 1.5 + 2 * band))
         excls[i] = excl
         m = pm.Model(tol)
         m.pieces = pieces
